@@ -29,12 +29,13 @@ def context(tier, seed):
     syms = [f"{k}:{c}:{p}" for k in ("on", "off") for c in (0, 1) for p in pitches] + ["on0:0:1", "w1", "w2", "w0", "ts34", "ts44", "ksC", "ksG"]
     if tier == "quick":
         syms += ["cc123:0", "cc120:1", "cc64:0"]      # controllers, among them "all notes off" / "all sound off"
+        syms += ["ts34@1", "ksG@1"]                   # the same signatures carried by a message of another channel
     ctx = {"syms": syms, "maxlen": maxlen, "tier": tier,
            "bounds": {"alphabet": syms, "max_word_length": maxlen, "words": sum(len(syms) ** k for k in range(maxlen + 1))}}
     if tier != "quick":
         # the quick alphabet (3 pitches incl. pitch == channel number) is also swept completely to length 4
         ctx["syms_b"] = [f"{k}:{c}:{p}" for k in ("on", "off") for c in (0, 1) for p in [0, 1, third]] + \
-                        ["w1", "w2", "w0", "ts34", "ts44", "ksC", "ksG", "cc123:0", "cc120:1", "cc64:0"]
+                        ["w1", "w2", "w0", "ts34", "ts44", "ksC", "ksG", "cc123:0", "cc120:1", "cc64:0", "ts34@1", "ksG@1"]
     return ctx
 
 
@@ -166,9 +167,11 @@ def mk(sym):
         n, c = sym[2:].split(":")
         return Message(message_type=MT.CONTROL_CHANGE, channel=int(c), control=int(n), velocity=0)
     if sym.startswith("ts"):
-        return Message(message_type=MT.TIME_SIGNATURE, numerator=int(sym[2]), denominator=int(sym[3]))
+        return Message(message_type=MT.TIME_SIGNATURE, numerator=int(sym[2]), denominator=int(sym[3]),
+                       channel=int(sym.split("@")[1]) if "@" in sym else None)
     if sym.startswith("ks"):
-        return Message(message_type=MT.KEY_SIGNATURE, key=Key(sym[2:]))
+        return Message(message_type=MT.KEY_SIGNATURE, key=Key(sym[2:].split("@")[0]),
+                       channel=int(sym.split("@")[1]) if "@" in sym else None)
     k, c, p = sym.split(":")
     if k == "on":
         return Message(message_type=MT.NOTE_ON, channel=int(c), note=int(p), velocity=64)
@@ -188,13 +191,13 @@ def analyse(word):
         elif sym.startswith("cc"):
             facts.add("controller_message")
         elif sym.startswith("ts"):
-            if sym == ts:
+            if sym.split("@")[0] == ts:
                 facts.add("repeated_signature")
-            ts = sym
+            ts = sym.split("@")[0]
         elif sym.startswith("ks"):
-            if sym == ks:
+            if sym.split("@")[0] == ks:
                 facts.add("repeated_signature")
-            ks = sym
+            ks = sym.split("@")[0]
         else:
             k, c, p = sym.split(":")
             key = (int(c), int(p))
